@@ -7,7 +7,7 @@ SPEC = {
         {"dialect": "match-small", "quick_n": 124124, "thorough_n": 124124, "judge": "judge-c14-match"},
         # generated names of depth <= 6 with regex metacharacters, INBOX spellings, odd delimiters placements
         {"dialect": "match", "quick_n": 60000, "thorough_n": 1500000, "judge": "judge-c14-match"},
-        # delimiters `\` `*` `%` and patterns that are not valid UTF-8: judged for panics
+        # delimiters `\` `*` `%` and reference/pattern that is not valid UTF-8: compared like the others; any panic is a violation
         {"dialect": "match-baddelim", "quick_n": 4000, "thorough_n": 100000, "judge": "judge-c14-match"},
         {"dialect": "superiors", "quick_n": 10000, "thorough_n": 200000},
         {"dialect": "inferiors", "quick_n": 10000, "thorough_n": 200000},
@@ -20,17 +20,15 @@ SPEC = {
         "the model replaces `regexp` by a backtracking matcher over the item list (literal | .* | [^d]*): Go's leftmost-first semantics, QuoteMeta and the textual ReplaceAll steps are argued in the model's header and exercised by the correspondence, not proved",
         "names-level model GluonModel/Model/Namespace.lean of handleCreate/handleDelete/handleRename + State.Create/Delete/Rename (theorems of Theorems/C14Namespace.lean): NOT tied by a correspondence of this check (no database-free hook); its model side is the dialect `namespace` (Driver/DNamespace.lean) for the wire-level oracle; it agreed with the whole server over TCP on 4 800 generated command sequences in a throwaway run",
         "reference semantics GluonModel/Spec/Wildcard.lean (RFC 3501 wildcard relation, hierarchy levels, LIST/LSUB selection) is the definition of 'correct'",
-        "facts translator harness/facts_match.go (go/ast): pieces of the regular expression in func match; State.List passes only subscribed mailboxes in LSUB mode",
+        "facts translator harness/facts_match.go (go/ast): pieces of the regular expression in func match; what func canon looks at (split[0] only); State.List passes only subscribed mailboxes in LSUB mode",
         "verif hooks internal/state/verif_export_match.go (VerifMatch, VerifListSuperiors, VerifListInferiors, VerifGetMatches with recent count 0)",
     ],
     "assumptions": [
         "strings are valid UTF-8 (List Char); the hierarchy delimiter is a single character; empty and multi-character delimiters are not modelled",
-        "DelimOK: the delimiter is not backslash (otherwise match panics: match_backslash_panics, DESIGN #22)",
-        "NoNL: mailbox names contain no newline (Go's `.` does not match it: match_eq_spec_false_newline)",
-        "CanonOK: no hierarchy segment of reference ++ pattern after the first spells INBOX in another case than upper (match canonicalises every such segment, the namespace only the first: match_eq_spec_false_inbox_segment)",
+        "reference/pattern that is not valid UTF-8: outside the Lean model; the driver answers `no match` for them (regexp.Compile error) and the judge requires exactly that",
         "lsub_exact: getMatches in LSUB mode is called with subscribed mailboxes only (State.List; fact lsub_input_fact)",
         "namespace model: one session, connector accepts every request, no mailbox-count limit, names are ASCII (modified UTF-7 = identity), subscriptions and connector-originated mailbox updates not modelled",
         "SUBSCRIBE/UNSUBSCRIBE, connector updates, modified UTF-7 and the wire rendering of LIST responses are not covered here; they are the wire-level oracle's job",
     ],
-    "explanation": "Lean theorems: match = RFC 3501 wildcard matching (all references, patterns, names, delimiters except backslash), listSuperiors/listInferiors = hierarchy levels, getMatches = exactly the selected names with \\Noselect for pure parents, for every map iteration order; model tied to the real functions by exhaustive + generated differential testing; the RFC judge is evaluated on the implementation's answers",
+    "explanation": "Lean theorems: match = RFC 3501 wildcard matching at full strength (all references, patterns, names, delimiters), listSuperiors/listInferiors = hierarchy levels, getMatches = exactly the selected names with \\Noselect for pure parents, for every map iteration order; model tied to the real functions by exhaustive + generated differential testing; the RFC judge is evaluated on the implementation's answers",
 }
